@@ -238,6 +238,14 @@ func c05(args []string) {
 				c05Call(w, f, dec, levels[(L+1)%2], "handler", "truncation")
 			}
 		}
+		// raw buffers shorter than any frame (nil, 0..8 bytes) handed to the decoder directly: an error, never a panic
+		for n := -1; n <= 8; n++ {
+			var raw []byte
+			if n >= 0 {
+				raw = append([]byte{}, tr.Frame(full)[:n]...)
+			}
+			c05Call(w, raw, typ, levels[(n+1)%2], "decoder", "tiny buffer")
+		}
 		for _, wrong := range []int{1004, 1007, 1077, 1074, 0, 4095, 1005 ^ 1, 1006 ^ 2} {
 			p := build1005(wrong, 1, 2, 3, coord(23), 1, coord(24), 2, coord(25), 5, nil, true)
 			f := tr.Frame(p)
